@@ -257,6 +257,8 @@ class SpecEnv:
                     to_symbolic_dict(self.interp, self.st, h)
                 if isinstance(h, HList):
                     if h.items is not None and isinstance(idx, int):
+                        if not (-len(h.items) <= idx < len(h.items)):
+                            return V("sym", t=self.interp.ctx.fresh_val("undef_index"))
                         return h.items[idx]
                     from .builtins_theory import to_symbolic_list
                     if h.items is not None:
@@ -270,6 +272,8 @@ class SpecEnv:
                         raise SpecError("spec indexes a concrete dict; use the executor's view")
                     return V("sym", t=z3.Select(h.vals, self.to_val(idx)))
             if base.kind == "tuple" and isinstance(idx, int):
+                if not (-len(base.d) <= idx < len(base.d)):
+                    return V("sym", t=self.interp.ctx.fresh_val("undef_index"))
                 return base.d[idx]
             if base.kind == "iter":
                 return V("sym", t=T.F_at(base.d.seq, z3.simplify(base.d.pos + self.to_int(idx))))
@@ -440,6 +444,24 @@ def _quant(env, lam, q):
     return q(vs, body)
 
 
+def pattern_safe(e):
+    """no if-then-else / boolean structure inside (z3 rejects such patterns)"""
+    todo, seen = [e], set()
+    while todo:
+        x = todo.pop()
+        if x.get_id() in seen:
+            continue
+        seen.add(x.get_id())
+        if z3.is_quantifier(x):
+            return False
+        if z3.is_app(x):
+            if x.decl().kind() in (z3.Z3_OP_ITE, z3.Z3_OP_AND, z3.Z3_OP_OR, z3.Z3_OP_NOT, z3.Z3_OP_EQ, z3.Z3_OP_IMPLIES,
+                                   z3.Z3_OP_LE, z3.Z3_OP_LT, z3.Z3_OP_GE, z3.Z3_OP_GT, z3.Z3_OP_DISTINCT):
+                return False
+            todo.extend(x.children())
+    return True
+
+
 def infer_patterns(vs, body):
     """Index terms `seq_at(s, v)` / `a[v]` whose only bound variable is v (and is a direct argument) make good triggers."""
     ids = {v.get_id(): n for n, v in enumerate(vs)}
@@ -475,7 +497,7 @@ def infer_patterns(vs, body):
             k = x.decl().kind()
             nm = x.decl().name()
             if (k == z3.Z3_OP_SELECT or nm in ("seq_at", "key_at", "val_at")) and x.num_args() == 2 \
-                    and x.arg(1).get_id() in ids and not mentions(x.arg(0)):
+                    and x.arg(1).get_id() in ids and not mentions(x.arg(0)) and pattern_safe(x.arg(0)):
                 n = ids[x.arg(1).get_id()]
                 if all(not z3.eq(x, c) for c in cands[n]):
                     cands[n].append(x)
@@ -538,6 +560,63 @@ def has_key(env, d, k):
                 to_symbolic_dict(env.interp, st, h)
             return z3.Select(h.has, env.to_val(k))
     raise SpecError("has_key needs a dict built by the unit")
+
+
+@ghost(raw=True)
+def old(env, argnodes):
+    """value of an expression in the entry state of the unit"""
+    st0 = env.interp.entry_state
+    e0 = SpecEnv(env.interp, st0, env.extra)
+    e0.bound = dict(env.bound)
+    r = e0.ev(argnodes[0])
+    if isinstance(r, V) and r.kind == "ref":
+        # a frozen copy of the entry-state content under a new handle (remembering which object it was)
+        from .values import new_id
+        cache = env.st.__class__.__dict__  # noqa: F841
+        key = ("$old", r.d)
+        hid = env.extra.get(key)
+        if hid is None or hid not in env.st.heap:
+            hid = new_id()
+            env.st.heap[hid] = st0.heap[r.d].copy()
+            env.extra[key] = hid
+        v = V("ref", hid)
+        v.tag = ("old_of", r.d)
+        return v
+    return r
+
+
+@ghost()
+def dict_key(env, d, i):
+    h = env.st.heap[d.d]
+    if h.pairs is not None:
+        from .builtins_theory import to_symbolic_dict
+        to_symbolic_dict(env.interp, env.st, h)
+    return V("sym", t=z3.Select(h.karr, env.to_int(i)))
+
+
+@ghost()
+def dict_wf(env, d):
+    from .verify import dict_wf_facts
+    h = env.st.heap[d.d]
+    if h.pairs is not None:
+        from .builtins_theory import to_symbolic_dict
+        to_symbolic_dict(env.interp, env.st, h)
+    i, j = z3.Int("vi!"), z3.Int("vj!")
+    x = z3.Const("vx!", T.Val)
+    return z3.And(
+        h.kn >= 0,
+        z3.ForAll([i, j], z3.Implies(z3.And(0 <= i, i < j, j < h.kn), z3.Select(h.karr, i) != z3.Select(h.karr, j))),
+        z3.ForAll([i], z3.Implies(z3.And(0 <= i, i < h.kn), z3.Select(h.has, z3.Select(h.karr, i)))),
+        z3.ForAll([x], z3.Implies(z3.Select(h.has, x), z3.Exists([i], z3.And(0 <= i, i < h.kn, z3.Select(h.karr, i) == x)))))
+
+
+@ghost()
+def same_object(env, a, b):
+    if isinstance(a, V) and isinstance(b, V) and a.kind == "ref" and b.kind == "ref":
+        ia = a.tag[1] if a.tag and a.tag[0] == "old_of" else a.d
+        ib = b.tag[1] if b.tag and b.tag[0] == "old_of" else b.d
+        return ia == ib
+    return env.equal(a, b)
 
 
 @ghost()
